@@ -702,6 +702,51 @@ def check_char_class_tests(prog, run, funcs, scope, floor):
                            "words" % (_txt(n)[:70], _txt(left)[:30], right.value if isinstance(right, ast.Constant) else right.id))
 
 
+def check_record_and_go_on(prog, run, funcs, scope, floor):
+    r = run.rule("Z13", "anchored modules (%s): a loop that records a problem for the current element (`errors.append(..)`, `add_error(..)`, "
+                        "`<...err...>.add/extend(..)`) goes on with the next element - the statement after the record is never `break`: every "
+                        "element is examined and every problem reported, whichever comes first (13 record-then-continue sites today, no "
+                        "record-then-break)" % scope, floor)
+    n = 0
+    for f in funcs:
+        if isinstance(f.node, ast.Lambda):
+            continue
+        for L in own_walk(f.node):
+            if not isinstance(L, (ast.For, ast.AsyncFor, ast.While)):
+                continue
+            n += 1
+            for blk_owner in ast.walk(L):
+                for field in ("body", "orelse", "finalbody"):
+                    blk = getattr(blk_owner, field, None)
+                    if not (isinstance(blk, list) and blk and isinstance(blk[0], ast.stmt)):
+                        continue
+                    for i, st in enumerate(blk[:-1]):
+                        if not (isinstance(st, ast.Expr) and isinstance(st.value, ast.Call) and isinstance(st.value.func, ast.Attribute)):
+                            continue
+                        fn = st.value.func
+                        recv = _txt(fn.value).lower()
+                        records = fn.attr == "add_error" or (fn.attr in ("append", "add", "extend") and "err" in recv)
+                        if not records:
+                            continue
+                        nxt = blk[i + 1]
+                        if isinstance(nxt, ast.Continue):
+                            r.instance("%s: `%s` then continue" % (f.qualname, _txt(st)[:50]))
+                        if isinstance(nxt, ast.Break):
+                            # the break must belong to L (no loop in between)
+                            cur, inner = getattr(nxt, "_parent", None), False
+                            while cur is not None and cur is not L:
+                                if isinstance(cur, (ast.For, ast.AsyncFor, ast.While)):
+                                    inner = True
+                                cur = getattr(cur, "_parent", None)
+                            if inner:
+                                continue
+                            run.report(r, "%s:%s:stops-at-first-problem(%s)" % (f.module.name, f.qualname, _txt(fn)[:40]), f.where(nxt),
+                                       "after `%s` the loop is left with `break`: the elements that follow are never examined, so which "
+                                       "problems are reported (and whether later elements are processed at all) depends on their order"
+                                       % _txt(st)[:70])
+    r.instance("%d loops scanned" % n, nontrivial=False)
+
+
 def run_bundle(prog, run, files, floors=None):
     mods = _mods(files)
     funcs = [f for f in prog.all_funcs() if f.module.name in mods]
@@ -714,3 +759,4 @@ def run_bundle(prog, run, files, floors=None):
     check_visitor_scopes(prog, run, classes, scope, floors.get("Z10", 0))
     check_search_loops(prog, run, funcs, scope, floors.get("Z11", 0))
     check_char_class_tests(prog, run, funcs, scope, floors.get("Z12", 0))
+    check_record_and_go_on(prog, run, funcs, scope, floors.get("Z13", 0))
